@@ -1,14 +1,19 @@
 import BSModel.Base.PStr
 import BSModel.Gen.TextWs
-/-! C13 — text extraction: `Tag._all_strings` (bs4/element.py:1873-1912), `NavigableString._all_strings`
-    (:1361-1409), `PageElement.get_text/.text/stripped_strings` (:513-550), `Tag.strings` (:1914),
-    `NavigableString.strings` (:1411-1421), `Tag.string` getter (:1836-1858), `NavigableString.string` (:1320-1329),
-    the assignment of `interesting_string_types` in `Tag.__init__` (:1731-1737) and
-    `BeautifulSoup.string_container` (bs4/__init__.py:732-755).
+/-! C13 — text extraction. Code-mirror of (bs4/element.py, line numbers as of the /repo HEAD this was last checked
+    against; the function names are the stable anchor):
+    `Tag._all_strings` (1904-1943), `Tag.strings` (1945), `NavigableString._all_strings` (1377-1425),
+    `NavigableString.strings` (1428), `PageElement.get_text/.text/stripped_strings` (518-554), the `Tag.string` getter
+    (1863-1889, a `while True` loop over only children) and `NavigableString.string` (1337), the assignment of
+    `interesting_string_types` in `Tag.__init__` (1724 without a builder, 1747-1753 with one), `Tag.copy_self` (1800);
+    bs4/__init__.py: `BeautifulSoup.string_container` (739-762), `new_tag` (689), `copy_self` (492), the
+    `string_container_stack` lines of `pushTag`/`popTag` (793-831); bs4/builder/__init__.py: the `string_containers`
+    option of `TreeBuilder.__init__` (237-239) and the two `DEFAULT_STRING_CONTAINERS` tables (269, 608).
 
     Code-mirror (`…Impl`, statement by statement) and spec (`textOf`: the obvious recursive evaluator).
-    Trees are a plain inductive type here: that `descendants` (the `next_element` chain) visits the nodes below an
-    element in pre-order is C01/C02's invariant; `walk` is the worklist form of that chain walk. -/
+    Trees are a plain inductive type here; `walk` is the worklist form of the `descendants` chain walk. The same
+    procedures over the pointer heap — `Tag.descendants` as the `next_element` chase — are in Model/TextHeap.lean, and
+    Props/C13.lean section 9 derives from C01 that both agree on every parsed and edited tree. -/
 namespace BS.Text
 
 /-- `NavigableString` and the subclasses bs4/element.py defines; `other k` = any further subclass (user-defined
@@ -50,13 +55,13 @@ inductive Node where
   | tag (name : PStr) (interesting : Interesting) (kids : List Node)
 deriving Repr
 
-/-- the class test of both `_all_strings` (element.py:1396-1403 and :1898-1905), `true` = the string passes -/
+/-- the class test of both `_all_strings` (`my_type is not types` / `not in types`), `true` = the string passes -/
 def Types.keeps : Types → StrClass → Bool
   | .all, _ => true
   | .one c, d => d == c
   | .many cs, d => cs.contains d
 
-/-- element.py:1889-1893 `if types is self.default: …` on a Tag. `main` = `Tag.MAIN_CONTENT_STRING_TYPES`. -/
+/-- `if types is self.default: …` on a Tag (first statement of `Tag._all_strings`). `main` = `Tag.MAIN_CONTENT_STRING_TYPES`. -/
 def resolveTag (main : List StrClass) (i : Interesting) : TypesArg → Types
   | .dflt => match i with
     | .none => .many main
@@ -66,7 +71,7 @@ def resolveTag (main : List StrClass) (i : Interesting) : TypesArg → Types
   | .one c => .one c
   | .many cs => .many cs
 
-/-- element.py:1383-1386 on a NavigableString: the default is always `Tag.MAIN_CONTENT_STRING_TYPES` -/
+/-- the same on a NavigableString: the default is always `Tag.MAIN_CONTENT_STRING_TYPES` -/
 def resolveStr (main : List StrClass) : TypesArg → Types
   | .dflt => .many main
   | .none => .all
@@ -82,6 +87,21 @@ def lstrip (s : PStr) : PStr := s.dropWhile isSpace
 def rstrip (s : PStr) : PStr := (s.reverse.dropWhile isSpace).reverse
 /-- `str.strip()` without argument: drop the maximal whitespace prefix, then the maximal whitespace suffix -/
 def strip (s : PStr) : PStr := rstrip (lstrip s)
+
+/-- values a caller can pass as `strip` (tested by `if strip:`): only the truth value matters -/
+inductive PyArg where
+  | bool (b : Bool)
+  | int (n : Int)
+  | none
+  | str (s : PStr)
+deriving DecidableEq, Repr
+
+/-- Python truthiness -/
+def PyArg.truthy : PyArg → Bool
+  | .bool b => b
+  | .int n => n != 0
+  | .none => false
+  | .str s => !s.isEmpty
 
 /-! ### the walk over `descendants` -/
 
@@ -106,7 +126,7 @@ theorem sizeL_append (a b : List Node) : sizeL (a ++ b) = sizeL a + sizeL b := b
 theorem sizeN_eq (n : Node) : sizeN n = 1 + sizeL (kidsOf n) := by
   cases n <;> simp [sizeN, kidsOf, sizeL]
 
-/-- `Tag.descendants` (element.py:2764-2779) in worklist form: the head of the list is `current`; its successor
+/-- `Tag.descendants` in worklist form: the head of the list is `current`; its successor
     `current.next_element` is its first child if it has one, else whatever was pending. Started on
     `self.contents`, it stops when the work below `self` is used up (`stopNode`). -/
 def walk : List Node → List Node
@@ -116,7 +136,7 @@ termination_by l => sizeL l
 decreasing_by
   simp only [sizeL, sizeL_append, sizeN_eq n]; omega
 
-/-- body of the `for descendant in self.descendants` loop (element.py:1895-1912): `none` = `continue` -/
+/-- body of the `for descendant in self.descendants` loop of `Tag._all_strings`: `none` = `continue` -/
 def tagKeep (t : Types) (strp : Bool) : Node → Option PStr
   | .tag _ _ _ => none                          -- `if not isinstance(descendant, NavigableString): continue`
   | .str c v =>
@@ -134,7 +154,39 @@ def allStringsImpl (main : List StrClass) (strp : Bool) (types : TypesArg) : Nod
     if !t.keeps c then []
     else
       let finalValue := if strp then strip v else v
-      if finalValue.length > 0 then [finalValue] else []   -- element.py:1408: an empty string yields nothing
+      if finalValue.length > 0 then [finalValue] else []   -- `if len(final_value) > 0`: an empty string yields nothing
+
+/-- `_all_strings(strip, types)` / `get_text(separator, strip, types)` with `strip` as passed: `if strip:` -/
+def allStringsArg (main : List StrClass) (strp : PyArg) (types : TypesArg) (n : Node) : List PStr :=
+  allStringsImpl main strp.truthy types n
+
+/-! #### a one-shot iterator as `types` (recorded behaviour; the documented argument is a tuple)
+
+`descendant_type not in types` on an iterator/generator *consumes* it: `in` advances up to and including the first
+equal element, or to the end. The filter then depends on the order of the strings and is no longer a selection by
+class. -/
+
+/-- `c in it` for a one-shot iterator holding `it`: the answer and what is left of the iterator -/
+def iterIn (c : StrClass) : List StrClass → Bool × List StrClass
+  | [] => (false, [])
+  | d :: ds => if d == c then (true, ds) else iterIn c ds
+
+/-- the loop of `Tag._all_strings` when `types` is a one-shot iterator: the iterator state is threaded through -/
+def iterWalk (strp : Bool) : List StrClass → List Node → List PStr
+  | _, [] => []
+  | it, .tag _ _ _ :: ns => iterWalk strp it ns
+  | it, .str c v :: ns =>
+    match iterIn c it with
+    | (true, it') => (tagKeep .all strp (.str c v)).toList ++ iterWalk strp it' ns
+    | (false, it') => iterWalk strp it' ns
+
+def allStringsIterImpl (strp : Bool) (it : List StrClass) : Node → List PStr
+  | .tag _ _ kids => iterWalk strp it (walk kids)
+  | .str c v =>
+    if (iterIn c it).1 then
+      let finalValue := if strp then strip v else v
+      if finalValue.length > 0 then [finalValue] else []
+    else []
 
 /-- `Tag.strings = property(_all_strings)`, `NavigableString.strings` -/
 def stringsImpl (main : List StrClass) (n : Node) : List PStr := allStringsImpl main false .dflt n
@@ -155,12 +207,13 @@ def getTextImpl (main : List StrClass) (sep : PStr) (strp : Bool) (types : Types
 def textImpl (main : List StrClass) (n : Node) : PStr := getTextImpl main [] false .dflt n
 
 mutual
-/-- `Tag.string` getter (element.py:1836-1858) and `NavigableString.string` (:1320-1329). The result is the string
-    node itself (class and value). -/
+/-- `Tag.string` getter (a `while True` loop descending through only children; structural recursion is its functional
+    form, the loop itself with its bound is `stringPropHeap` in Model/TextHeap.lean) and `NavigableString.string`. The
+    result is the string node itself (class and value). -/
 def stringProp : Node → Option (StrClass × PStr)
   | .str c v => some (c, v)
   | .tag _ _ ks => stringPropL ks
-/-- `if len(self.contents) != 1: return None; child = self.contents[0]; …` -/
+/-- `if len(tag.contents) != 1: return None; child = tag.contents[0]; …` -/
 def stringPropL : List Node → Option (StrClass × PStr)
   | [] => none
   | [k] => stringProp k
@@ -169,14 +222,14 @@ end
 
 /-! ### configuration: which strings a tag counts, which class parsed text gets -/
 
-/-- `Tag.__init__` with a builder (element.py:1731-1737): `{builder.string_containers[self.name]}` when the name is a
+/-- `Tag.__init__` with a builder: `{builder.string_containers[self.name]}` when the name is a
     string container, else `MAIN_CONTENT_STRING_TYPES` -/
 def interestingFor (main : List StrClass) (containers : List (PStr × StrClass)) (name : PStr) : Interesting :=
   match containers.lookup name with
   | some c => .many [c]
   | none => .many main
 
-/-- `BeautifulSoup.string_container(base_class)` (bs4/__init__.py:732-755). `elementClasses` = the
+/-- `BeautifulSoup.string_container(base_class)` (bs4/__init__.py). `elementClasses` = the
     `element_classes` mapping restricted to string classes, `stackTop` = name of `string_container_stack[-1]`
     (the innermost open string-container tag), `base` = the class the builder asked for (`None` for plain data). -/
 def stringContainer (elementClasses : List (StrClass × StrClass)) (containers : List (PStr × StrClass))
@@ -187,6 +240,89 @@ def stringContainer (elementClasses : List (StrClass × StrClass)) (containers :
   | some name =>
     if container = .navigableString then (containers.lookup name).getD container else container
   | none => container
+
+/-! ### configuration handling: the builder's option, `Tag.__init__` in full, `new_tag`, `copy_self` -/
+
+/-- the `string_containers` keyword of `TreeBuilder.__init__` -/
+inductive SCArg where
+  | useDefault                                  -- not passed (`USE_DEFAULT`)
+  | none                                        -- `None` (not a documented value)
+  | dict (l : List (PStr × StrClass))           -- a dictionary (possibly empty)
+deriving Repr
+
+/-- `TreeBuilder.__init__` (builder/__init__.py: `if string_containers == self.USE_DEFAULT: string_containers =
+    self.DEFAULT_STRING_CONTAINERS; self.string_containers = string_containers`). `dflt` = the class attribute
+    `DEFAULT_STRING_CONTAINERS` of the builder class; `None` is stored as it is. -/
+def builderStringContainers (dflt : List (PStr × StrClass)) : SCArg → Option (List (PStr × StrClass))
+  | .useDefault => some dflt
+  | .none => Option.none
+  | .dict l => some l
+
+/-- outcome of `Tag.__init__` as far as `interesting_string_types` goes -/
+inductive InitResult where
+  | ok (i : Interesting)
+  | typeError                 -- `self.name in builder.string_containers` with `string_containers=None`
+deriving DecidableEq, Repr
+
+/-- `Tag.__init__` (element.py: `if builder is None: … self.interesting_string_types = interesting_string_types` /
+    `else: … if self.name in builder.string_containers: … else: …`). `builder` = `none` for a builder-less tag,
+    `some sc` for a builder whose `string_containers` attribute is `sc`; `param` = the `interesting_string_types`
+    argument (default `None`), which is **ignored** when a builder is given. -/
+def tagInitInteresting (main : List StrClass) (builder : Option (Option (List (PStr × StrClass)))) (name : PStr)
+    (param : Interesting) : InitResult :=
+  match builder with
+  | Option.none => .ok param
+  | some Option.none => .typeError
+  | some (some cont) => .ok (interestingFor main cont name)
+
+/-- `BeautifulSoup.new_tag(name)`: `Tag(None, self.builder, name, …)` -/
+def newTagInteresting (main : List StrClass) (sc : Option (List (PStr × StrClass))) (name : PStr) : InitResult :=
+  tagInitInteresting main (some sc) name .none
+
+/-- `Tag.copy_self`: `type(self)(None, None, self.name, …, interesting_string_types=self.interesting_string_types)` -/
+def copySelfInteresting (main : List StrClass) (name : PStr) (i : Interesting) : InitResult :=
+  tagInitInteresting main Option.none name i
+
+/-- `BeautifulSoup.copy_self` (bs4/__init__.py): `type(self)("", None, self.builder)` — a new root made from the same
+    builder; an `interesting_string_types` set by hand on the original root object is not carried over -/
+def soupCopySelfInteresting (main : List StrClass) (sc : Option (List (PStr × StrClass))) (root : PStr)
+    (_original : Interesting) : InitResult :=
+  tagInitInteresting main (some sc) root .none
+
+mutual
+/-- `Tag.__copy__`/`__deepcopy__` as far as text extraction can see: every tag through `copy_self`, every string
+    through `type(self)(self)` (same class, same value), children in the same order -/
+def copyNode (main : List StrClass) : Node → Node
+  | .str c v => .str c v
+  | .tag n i ks =>
+    match copySelfInteresting main n i with
+    | .ok j => .tag n j (copyNodeL main ks)
+    | .typeError => .tag n .none (copyNodeL main ks)
+def copyNodeL (main : List StrClass) : List Node → List Node
+  | [] => []
+  | k :: ks => copyNode main k :: copyNodeL main ks
+end
+
+/-- `string_container_stack` maintenance (bs4/__init__.py `pushTag`: `if tag.name in self.builder.string_containers:
+    self.string_container_stack.append(tag)`; `popTag`: `if self.string_container_stack and tag ==
+    self.string_container_stack[-1]: pop()`), on the list of open elements (innermost first, each with a flag
+    "is on the container stack") — the full parser is C03's machine (Model/Builder.lean); this is the part
+    `string_container()` reads. -/
+def containerStackTop (cont : List (PStr × StrClass)) (openNames : List PStr) : Option PStr :=
+  openNames.find? (fun n => (cont.lookup n).isSome)
+
+/-- numbering shared with C03's builder machine (`Cls`): 0 = NavigableString ("no class of its own") -/
+def StrClass.code : StrClass → Nat
+  | .navigableString => 0 | .preformattedString => 1 | .cData => 2 | .processingInstruction => 3
+  | .xMLProcessingInstruction => 4 | .comment => 5 | .declaration => 6 | .doctype => 7 | .stylesheet => 8
+  | .script => 9 | .templateString => 10 | .rubyTextString => 11 | .rubyParenthesisString => 12
+  | .other k => 13 + k
+
+def StrClass.ofCode : Nat → StrClass
+  | 0 => .navigableString | 1 => .preformattedString | 2 => .cData | 3 => .processingInstruction
+  | 4 => .xMLProcessingInstruction | 5 => .comment | 6 => .declaration | 7 => .doctype | 8 => .stylesheet
+  | 9 => .script | 10 => .templateString | 11 => .rubyTextString | 12 => .rubyParenthesisString
+  | k + 13 => .other k
 
 /-! ### spec: the recursive evaluator -/
 
